@@ -38,6 +38,21 @@ def handle : List String → String
         | none => "none"
       impl ++ "\t" ++ spec ++ "\t" ++ toString (stringPrefixOnly ms cwd p)
     | _, _, _ => "error\tbad-hex"
+  | ["mount2", cwd, p, q, ms] =>
+    match fromHex cwd, fromHex p, fromHex q, (ms.splitOn ",").mapM fromHex with
+    | some cwd, some p, some q, some ms =>
+      let showTwo : TwoRes → String := fun r => match r with
+        | .noMount1 => "nomount1"
+        | .noMount2 => "nomount2"
+        | .cross => "cross"
+        | .forward m r1 r2 => "some " ++ toHexField m ++ " " ++ toHexField r1 ++ " " ++ toHexField r2
+      let showOpt : Option Path → String := fun o => match o with
+        | some m => "some " ++ toHexField m
+        | none => "none"
+      let impl := twoPath ms cwd p q
+      showTwo impl ++ "\t" ++ showOpt (specTwoPath ms cwd p q) ++ "\t" ++ showOpt (specMount ms cwd p)
+        ++ "\t" ++ showOpt (specMount ms cwd q) ++ "\t" ++ toString (impl != twoPathShortcut ms cwd p q)
+    | _, _, _, _ => "error\tbad-hex"
   | _ => "error\tunknown-request"
 
 end Risor.C13
